@@ -795,7 +795,11 @@ var MergeFunc = function.New(&function.Spec{
 			arg, _ = arg.Unmark()
 
 			switch {
-			case ty.IsObjectType() && !arg.IsNull():
+			case ty.IsObjectType() && arg.IsNull():
+				// A null object contributes no attributes to the result, so
+				// the result cannot simply have the arguments' common type.
+				matching = false
+			case ty.IsObjectType():
 				for attr, aty := range ty.AttributeTypes() {
 					attrs[attr] = aty
 				}
